@@ -29,6 +29,15 @@ import time
 VERIF = os.path.dirname(os.path.abspath(__file__))
 REPO = os.environ.get("VERIF_REPO", "/repo")
 WORK = os.path.join(VERIF, ".work")
+EVID = os.path.join(VERIF, "evidence")
+FOUND = os.path.join(VERIF, "replays")   # <FOUND>/<id>/found/ receives shrunk failures
+if os.path.realpath(REPO) != "/repo":
+    # sensitivity runs against a scratch copy of the repository: keep their
+    # build output, evidence and findings away from the real ones
+    _tag = hashlib.sha256(os.path.realpath(REPO).encode()).hexdigest()[:10]
+    WORK = os.path.join("/tmp", "verif-scratch-" + _tag)
+    EVID = os.path.join(WORK, "evidence")
+    FOUND = os.path.join(WORK, "found")
 NCPU = min(os.cpu_count() or 4, 16)
 
 sys.path.insert(0, os.path.join(VERIF, "lib"))
@@ -80,6 +89,10 @@ def target_spec(name):
         units.append((f"{S}/seq/seq_main.cpp", "main.o", fl))
         units += [(f"{REPO}/{f}", f.replace(".cpp", ".o"), fl) for f in REPO_LIB]
         return "g++", units, SAN + ["-pthread"], ["seq"]
+    if name in ("enc_fast", "enc_san"):
+        fl = BASE + HOOKS + (["-O2"] if name == "enc_fast" else SAN + ["-O1"])
+        units = [(f"{S}/enc/enc_main.cpp", "enc_main.o", fl), (f"{REPO}/art_internal.cpp", "art_internal.o", fl)]
+        return "g++", units, ([] if name == "enc_fast" else SAN), ["enc"]
     raise KeyError(name)
 
 
@@ -183,7 +196,7 @@ def merge_stats(files):
 
 
 def write_evidence(pid, tier, seed, level, coverage, wall, violations, assumptions):
-    os.makedirs(os.path.join(VERIF, "evidence"), exist_ok=True)
+    os.makedirs(EVID, exist_ok=True)
     for k in ("evaluations", "distinct_nontrivial", "states", "transitions", "traces_validated_against_impl",
               "obligations", "discharged", "programs", "disagreements_checked"):
         if k in coverage and not isinstance(coverage[k], int):
@@ -198,7 +211,7 @@ def write_evidence(pid, tier, seed, level, coverage, wall, violations, assumptio
         "wall_s": round(wall, 2),
         "violations": violations,
     }
-    p = os.path.join(VERIF, "evidence", f"{pid}.json")
+    p = os.path.join(EVID, f"{pid}.json")
     with open(p + ".tmp", "w") as f:
         json.dump(ev, f, indent=1)
     os.rename(p + ".tmp", p)
@@ -314,7 +327,7 @@ def check_seq(pid, tier, seed):
     outdir = os.path.join(WORK, "run", pid)
     shutil.rmtree(outdir, ignore_errors=True)
     os.makedirs(outdir)
-    faildir = os.path.join(VERIF, "replays", pid, "found")
+    faildir = os.path.join(FOUND, pid, "found")
     if tier == "quick":
         plan = [(200, 6000)] * 12 + [(600, 800)] * 4
     else:
@@ -381,13 +394,145 @@ def check_seq(pid, tier, seed):
     return finish(pid, res)
 
 
+# ---------------------------------------------------------------------------
+# Key encoder checks: C11, C12, C15
+
+ENC_RULES = {
+    "C11": "exhaustive successor chains: every value of u8/i8/u16/i16/u32/i32 and every float bit pattern is "
+           "compared with its successor in the stated total order (strict byte order of the encodings; all NaNs "
+           "equal and above +inf), each chain step counted once; all pairs of texts over {01,02,ff} up to length 6 "
+           "with 0-2 trailing zeros; plus generated pairs of component tuples of equal schema (structured + random "
+           "64-bit integers, doubles, texts up to and beyond maxlen): sign(bytewise compare) == sign(tuple order); "
+           "a generated pair is non-trivial if it differs first at a byte position > 0 or straddles a sign / "
+           "exponent / special-value boundary; distinct by hash of the pair",
+    "C12": "exhaustive: decode(encode(v)) bit-identical (canonical quiet NaN for NaNs) and size == sizeof(T) for "
+           "every u8/i8/u16/i16/u32/i32 value and every float bit pattern; generated component sequences (1-200 "
+           "components) encoded by a fresh encoder, by an encoder reused after reset() that had grown, and "
+           "re-encoded; leading fixed-size components decoded in order; non-trivial = sequence crosses the "
+           "256-byte internal buffer or has >= 2 components; distinct by hash",
+    "C15": "all pairs of texts over {01,02,ff} up to length 6 with 0-2 trailing zeros (exhaustive) and generated "
+           "pairs of component tuples of equal schema: encodings byte-equal iff components equal after "
+           "normalisation, otherwise neither is a prefix of the other; size bound len+3 per text; guard-page test "
+           "of the read bound (text ends at a PROT_NONE page after maxlen bytes, passed with a longer length); "
+           "non-trivial = the two keys share >= 1 leading byte, or one text is a proper prefix of the other, or a "
+           "text length is within 3 of maxlen; distinct by hash",
+}
+
+
+def check_enc(pid, tier, seed):
+    t0 = time.time()
+    fast = build("enc_fast")
+    san = build("enc_san")
+    res = Result()
+    outdir = os.path.join(WORK, "run", pid)
+    shutil.rmtree(outdir, ignore_errors=True)
+    os.makedirs(outdir)
+    faildir = os.path.join(FOUND, pid, "found")
+    nrep = 0
+    for path in sorted(glob.glob(os.path.join(VERIF, "replays", pid, "*.txt"))):
+        nrep += 1
+        rc, out = replay_once(san, ["--prop", pid], path)
+        if rc != 0 and confirm_replay(san, ["--prop", pid], path):
+            res.violations.append((path, out[-300:]))
+    cmds = []
+    names = []
+    parts = NCPU
+    if pid in ("C11", "C12"):
+        for i in range(parts):
+            names.append(f"chains{i}")
+            cmds.append([fast, "chains", "--prop", pid, "--part", str(i), "--parts", str(parts)])
+    if pid in ("C11", "C15"):
+        for i in range(4):
+            names.append(f"smalltext{i}")
+            cmds.append([fast, "smalltext", "--prop", pid, "--part", str(i), "--parts", "4"])
+    if pid == "C15":
+        names.append("guard")
+        cmds.append([fast, "guard", "--prop", pid, "--seed", str(seed)])
+        names.append("guard_san")
+        cmds.append([san, "guard", "--prop", pid, "--seed", str(seed + 1)])
+    per = {"C11": 60000, "C12": 15000, "C15": 60000}[pid] * (1 if tier == "quick" else 40)
+    for i in range(NCPU):
+        names.append(f"pairs{i}")
+        cmds.append([san, "pairs", "--prop", pid, "--seed", str(seed * 1000 + i), "--cases", str(per)])
+    full = []
+    for n, c in zip(names, cmds):
+        full.append(c + ["--out", os.path.join(outdir, n + ".json"), "--fail-dir", outdir])
+    results = run_parallel(full, timeout=6 * 3600)
+    for c, rc, out, err in results:
+        if rc == 0:
+            continue
+        exe = c[0]
+        if rc == 1 and "FAILURE " in out:
+            line = [l for l in out.splitlines() if l.startswith("FAILURE ")][0]
+            path = line.split()[1]
+            msg = line.split("::", 1)[1].strip() if "::" in line else ""
+            if "guard" in os.path.basename(path) or confirm_replay(san, ["--prop", pid], path):
+                os.makedirs(faildir, exist_ok=True)
+                dst = os.path.join(faildir, os.path.basename(path))
+                shutil.copy(path, dst)
+                res.violations.append((dst, msg))
+            else:
+                res.inconclusive.append(f"failure did not reproduce: {path}")
+        elif rc == "timeout":
+            res.inconclusive.append("worker hit the wall-clock budget")
+        elif c[1] == "guard" and rc not in (0, 1, 2):
+            # a fault while encoding the guarded text: read beyond maxlen
+            os.makedirs(faildir, exist_ok=True)
+            dst = os.path.join(faildir, "C15_guard_page_fault.txt")
+            with open(dst, "w") as f:
+                f.write("# encode_text faulted on a text that ends at a PROT_NONE page after maxlen bytes\nguard\n")
+            res.violations.append((dst, f"guard-page run died with rc={rc}: {err[-300:]}"))
+        else:
+            # sanitizer report / crash inside the encoder while generating pairs
+            os.makedirs(faildir, exist_ok=True)
+            dst = os.path.join(faildir, f"{pid}_crash_{os.path.basename(c[-3])}.txt")
+            with open(dst, "w") as f:
+                f.write(f"# harness process died rc={rc}; re-run: {' '.join(c)}\n# {err[-1500:]}\n")
+            res.violations.append((dst, f"crash rc={rc}: {err[-300:]}"))
+    counters, distinct, samples = merge_stats([os.path.join(outdir, n + ".json") for n in names])
+    chain = counters.get("chain_steps", 0)
+    small = counters.get("smalltext_pairs", 0)
+    pairs = counters.get("pairs", 0)
+    cov = {
+        "evaluations": int(chain + small + pairs + counters.get("guard_page_encodes", 0)),
+        "distinct_nontrivial": int(distinct + chain + counters.get("smalltext_pairs_nontrivial", 0)),
+        "rule": ENC_RULES[pid],
+        "samples": samples[:6] if samples else ["(no sample)"],
+        "chain_steps": {k[12:]: v for k, v in counters.items() if k.startswith("chain_steps.")},
+        "exhaustive_subdomains": (["u8", "i8", "u16", "i16", "u32", "i32", "f32 (all 2^32 bit patterns)"]
+                                  if pid in ("C11", "C12") else []) +
+                                 (["texts over {01,02,ff} of length <= 6 with 0-2 trailing zeros, all pairs"]
+                                  if pid in ("C11", "C15") else []),
+        "small_text_pairs": small,
+        "generated_pairs": pairs,
+        "generated_pairs_nontrivial_distinct": distinct,
+        "components_by_type": {k[10:]: v for k, v in counters.items() if k.startswith("component.")},
+        "discarded_outside_domain_interior_zero": counters.get("discarded_interior_zero", 0),
+        "guard_page_encodes": counters.get("guard_page_encodes", 0),
+        "regression_replays": nrep,
+        "inconclusive": res.inconclusive,
+        "exhaustive": False,
+    }
+    write_evidence(pid, tier, seed, "exploration", cov, time.time() - t0, len(res.violations),
+                   ["oracle = documented total orders restated with comparison operators, libm nextafter and "
+                    "std::string (no encoder code shared)",
+                    "exhaustive chains run in an optimised build without sanitizers; generated pairs under ASan+UBSan"])
+    return finish(pid, res)
+
+
 CHECKS = {
+    "C11": check_enc,
+    "C12": check_enc,
+    "C15": check_enc,
     "C01": check_seq,
     "C02": check_seq,
     "C10": check_seq,
 }
 
 REPLAY = {
+    "C11": ("enc_san", lambda pid: ["--prop", pid]),
+    "C12": ("enc_san", lambda pid: ["--prop", pid]),
+    "C15": ("enc_san", lambda pid: ["--prop", pid]),
     "C01": ("seq", lambda pid: ["--prop", pid]),
     "C02": ("seq", lambda pid: ["--prop", pid]),
     "C10": ("seq", lambda pid: ["--prop", pid]),
@@ -404,7 +549,7 @@ def main():
     a = ap.parse_args()
     os.makedirs(WORK, exist_ok=True)
     if a.build_all:
-        for t in ["seq"]:
+        for t in ["seq", "enc_fast", "enc_san"]:
             build(t)
         return 0
     seed = a.seed if a.seed is not None else int(os.environ.get("VERIF_SEED", "1") or 1)
